@@ -408,7 +408,7 @@ func runC09(seed uint64, tier, dir, replay string) error {
 			continue
 		}
 		tagged := 0
-		if e.VLANID.VID != 0 || e.VLANID.PCP != 0 {
+		if e.VLANID.VID != 0 || e.VLANID.PCP != 0 || e.VLANID.DEI != 0 {
 			tagged = 1
 		}
 		want := canonHash(e)
@@ -421,9 +421,6 @@ func runC09(seed uint64, tier, dir, replay string) error {
 		fmt.Sscanf(r.extra, "tag%d", &tag)
 		js := map[string]interface{}{"kind": "frame:" + kind, "bytes": hexs(b), "len": e.Len(), "reencoded": hexs(r.re), "payload_tag": r.extra, "outcome": r.outcome, "fields_equal": same == 1,
 			"vlan": map[string]interface{}{"vid": e.VLANID.VID, "pcp": e.VLANID.PCP, "dei": e.VLANID.DEI}}
-		if tagged == 1 && e.VLANID.VID == 0 {
-			js["sig"] = "priority-tag-vid0"
-		}
 		if same == 0 {
 			js["fields_before"] = canonString(e)
 		}
